@@ -77,6 +77,21 @@ Proof.
   destruct (N.eqb_spec x p) as [->|Hne]; [tauto|]. apply HU; tauto.
 Qed.
 
+(* the same for a write inside a rollback-journal transaction, whatever journal mode LiteFS tracks *)
+Lemma write_page_j_unchanged s0 s p q s' :
+  contiguous s p -> Unchanged s0 s -> op_write_page_j s p q = (Done, s') ->
+  Unchanged s0 s' /\ wal_mode s' = wal_mode s /\ dirty s' = insert_sorted p (dirty s) /\
+  txid s' = txid s /\ chk s' = chk s /\ ltxdir s' = ltxdir s /\ lockpg s' = lockpg s.
+Proof.
+  intros Hc HU H. unfold op_write_page_j in H. destruct (writeable s); cbn [negb] in H; [|discriminate].
+  inversion H; subst s'. clear H.
+  split; [|repeat split; reflexivity].
+  intros x Hx Hnd. change (dirty (write_db_page (with_dirty s (insert_sorted p (dirty s))) p q)) with (insert_sorted p (dirty s)) in Hnd.
+  rewrite insert_sorted_in in Hnd.
+  rewrite write_page_file by assumption.
+  destruct (N.eqb_spec x p) as [->|Hne]; [tauto|]. apply HU; tauto.
+Qed.
+
 (* ---------- CommitJournal ---------- *)
 Lemma journal_pages_spec s commit : forall pgnos pages,
   journal_pages s commit pgnos = Some pages ->
